@@ -584,6 +584,17 @@ def main():
     for kv, sv in list(forced)[:60]:
         rows.append('{%s, %s, %s, %s, %s},' % (go_bytes(list(kv.to_bytes(32, 'big'))), go_bytes(list(sv.to_bytes(32, 'big'))), go_bytes(enc(ref.mul(kv % N))),
                                               go_bytes(enc(ref.mul(kv % N, Pp))), go_bytes(enc(ref.add(ref.mul(kv % N), ref.mul(sv % N, Pp))))))
+    # scalars that stress the signed-digit recoding of s (taken by contract from C20 in the symbolic part): a run of ones or a
+    # high window that sends a carry into an all-zero 32-bit word, at every word position; and the same patterns as base scalars
+    sparse = []
+    for w in range(7):
+        for lowpat in (0xF8000000, 0xFFFFFFFF, 0x80000000, 0x00000001):
+            hi = (rng.getrandbits(32 * (6 - w)) | 1) << (32 * (w + 2)) if w < 6 else 0
+            sparse.append(hi | (lowpat << (32 * w)) | (rng.getrandbits(32 * w) if w and lowpat != 1 else 0))
+    for sv in sparse:
+        kv = rng.getrandbits(256)
+        rows.append('{%s, %s, %s, %s, %s},' % (go_bytes(list(kv.to_bytes(32, 'big'))), go_bytes(list(sv.to_bytes(32, 'big'))), go_bytes(enc(ref.mul(kv % N))),
+                                              go_bytes(enc(ref.mul(kv % N, Pp))), go_bytes(enc(ref.add(ref.mul(kv % N), ref.mul(sv % N, Pp))))))
     for kv in ks:
         sv = rng.getrandbits(256) if kv not in (0, 1) else kv
         rows.append('{%s, %s, %s, %s, %s},' % (go_bytes(list(kv.to_bytes(32, 'big'))), go_bytes(list(sv.to_bytes(32, 'big'))), go_bytes(enc(ref.mul(kv % N))),
